@@ -259,8 +259,8 @@ var specTypes = pbt.Register(&pbt.Spec[Case]{
 		"ordinary value and with EVERY special value of the type, 10 jagged inputs; scripts set/row/span/fill from the last row/special/clone/keep on each constructor; thorough: all scripts). Values are compared " +
 		"by bit pattern (floats) or identity (slices, maps, pointers), String by fmt.Sprint of each cell; for zero-size types only panics, lengths and String are observable; " + rule,
 	Enum: func(shard, shards int, tier string, yield func(Case) bool) {
-		for _, T := range typeOrder {
-			if T == "" {
+		for i, T := range typeOrder {
+			if T == "" || i%shards != shard {
 				continue
 			}
 			for _, s := range typeShapes(tier) {
